@@ -398,6 +398,17 @@ func c01(run *core.Run, replay string) {
 			}
 		}
 	}
+	// 6c. several full blocks larger than the default 256 KiB buffers with chains that expand (buffers grown inside the tasks)
+	for ci, ch := range []string{"EXE+LZ", "TEXT+UTF+EXE+PACK+MM+ROLZ", "EXE+PACK", "MM+EXE", "EXE+RLT+TEXT+UTF+DNA"} {
+		for ji, j := range []uint{1, 3, 4, 8} {
+			if !run.Thorough() && (ci+ji)%2 == 1 {
+				continue
+			}
+			bs := []uint{262144, 393216, 524288}[(ci+ji)%3]
+			add(rtCase{Cfg: kz.Cfg{Transform: ch, Entropy: []string{"NONE", "HUFFMAN"}[ci%2], BlockSize: bs, Jobs: j, Checksum: 32}, Shape: []string{"elfx86", "text", "pe", "wav", "html"}[ci],
+				Size: 4*int(bs) + 777, Seed: S + int64(ci), HintMode: []string{"absent", "exact"}[ji%2], DecJobs: decJ[(ci+ji)%len(decJ)]})
+		}
+	}
 	if run.Thorough() {
 		// all ordered transform pairs x 6 shapes; all 19x9 codec pairs; big blocks
 		for _, a := range kz.Transforms[1:] {
